@@ -59,6 +59,12 @@ struct Costs {
   void setRows(const std::vector<int> &r) { rows = r; rowSum = sumRows(); }
   void appendRow(int v) { rows.push_back(v); }
   bool consistent() const { return rowSum == sumRows(); }
+  // SW: the two float members reach each other's parameter
+  struct Knobs { float binSize; float sideMargin; };
+  static int grid(int n, float binSize, float sideMargin) { return (int)(n * binSize + sideMargin); }
+  int build(const Knobs &k) const { return grid((int)rows.size(), k.sideMargin, k.binSize); }
+  // not SW: same call with the members in their own slots
+  int buildOk(const Knobs &k) const { return grid((int)rows.size(), k.binSize, k.sideMargin); }
   // E2: loop step that can be zero
   int stride(int nb) const {
     int s = 0;
